@@ -6,6 +6,13 @@ namespace Dirk.Gen
 /-- rules/standard/storage.go, NewStore: the value assigned to the SyncWrites option -/
 def storeSyncWrites : Option String := some "true"
 
+/-- createServer: all fields set on the server's tls.Config, and all methods called on it -/
+def tlsConfigFields : List String := ["Certificates", "ClientAuth", "ClientCAs", "MinVersion"]
+def tlsConfigCalls : List String := []
+/-- rules/service.go: the enumerators of rules.Result; and every switch over them outside package rules: (where, enumerators named, has a default) -/
+def rulesResults : List String := ["UNKNOWN", "APPROVED", "DENIED", "FAILED"]
+def resultSwitches : List (String × List String × Bool) := [("services/accountmanager/standard/generate.go:Generate", ["APPROVED", "DENIED", "FAILED", "UNKNOWN"], false), ("services/accountmanager/standard/lock.go:Lock", ["APPROVED", "DENIED", "FAILED", "UNKNOWN"], false), ("services/accountmanager/standard/unlock.go:Unlock", ["APPROVED", "DENIED", "FAILED", "UNKNOWN"], false), ("services/signer/standard/multisign.go:Multisign", ["APPROVED", "DENIED", "FAILED", "UNKNOWN"], false), ("services/signer/standard/signbeaconattestation.go:SignBeaconAttestation", ["APPROVED", "DENIED", "FAILED", "UNKNOWN"], false), ("services/signer/standard/signbeaconattestations.go:SignBeaconAttestations", ["APPROVED", "DENIED", "FAILED", "UNKNOWN"], false), ("services/signer/standard/signbeaconproposal.go:SignBeaconProposal", ["APPROVED", "DENIED", "FAILED", "UNKNOWN"], false), ("services/signer/standard/signgeneric.go:SignGeneric", ["APPROVED", "DENIED", "FAILED", "UNKNOWN"], false), ("services/walletmanager/standard/lock.go:Lock", ["APPROVED", "DENIED", "FAILED", "UNKNOWN"], false), ("services/walletmanager/standard/unlock.go:Unlock", ["APPROVED", "DENIED", "FAILED", "UNKNOWN"], false)]
+
 /-- services/api/grpc/service.go, createServer: fields of the server's tls.Config -/
 def tlsClientAuth : Option String := some "tls.RequireAndVerifyClientCert"
 def tlsMinVersion : Option String := some "tls.VersionTLS13"
